@@ -22,11 +22,26 @@ func main() {
 	rng := rand.New(rand.NewSource(*seed))
 	thorough := *tier == "thorough"
 	switch *prop {
+	case "probe":
+		runProbe(rng)
+		return
 	case "C15":
 		if thorough {
 			runC15(r, rng, 3000, true)
 		} else {
 			runC15(r, rng, 300, false)
+		}
+	case "C16":
+		if thorough {
+			runC16(r, rng, 3000, 400)
+		} else {
+			runC16(r, rng, 220, 40)
+		}
+	case "C19":
+		if thorough {
+			runC19(r, rng, 1000)
+		} else {
+			runC19(r, rng, 70)
 		}
 	default:
 		fmt.Fprintln(os.Stderr, "unknown property", *prop)
